@@ -49,7 +49,7 @@ def obligation_record(ob):
     }
 
 
-def confirm_refutation(prop, target, sha, ob, rec, repo):
+def confirm_refutation(prop, target, sha, ob, rec, repo, fv=None):
     """model -> concrete inputs -> replay on the real code (same tree the VCs came from)"""
     from . import modelval
 
@@ -59,6 +59,12 @@ def confirm_refutation(prop, target, sha, ob, rec, repo):
             vals = {}
             for name, tree in ob.inputs:
                 vals[name] = modelval.to_json(modelval.pyval(ob.model, tree))
+            c = fv.c if fv is not None else None
+            if c is not None and c.replay_extras is not None:
+                plain = modelval.from_json(vals)
+                extra = c.replay_extras(lambda src: fv.model_eval(ob, src), plain)
+                for k_, v_ in (extra or {}).items():
+                    vals[k_] = modelval.to_json(v_)
             rec["inputs"] = vals
         except modelval.Unrepresentable as e:
             rec["inputs_error"] = "model value not representable: %s" % e
@@ -89,26 +95,54 @@ CONTRACT_KINDS = ("ensures", "ensures-exc", "raises", "must-raise", "no-exceptio
 INTERNAL_KINDS = ("inv-entry", "inv-preserved", "variant-bounded", "variant-decreases", "decreases")
 
 
-def solve_all(prop, target, fv, obs, repo, tier, timeout_ms, cross):
+def solve_all(prop, target, fv, obs, repo, tier, timeout_ms, cross, budget_s=None):
+    """Two passes: (1) every obligation with a short z3 budget and, on unknown, a finite-instantiation
+    counter-model search; (2) the still-open ones with the full schedule (z3 long, cvc5, z3 4.8) while
+    the per-function wall budget lasts.  Past the budget an obligation stays `unknown`."""
     from . import solve
+    import z3
 
-    recs = []
+    z3.set_param("memory_max_size", 12000)
+    if budget_s is None:
+        budget_s = 90 if tier == "quick" else 900
+    t_start = time.time()
+    recs = {}
+    hard = []
     for ob in obs:
-        solve.solve_one(ob, timeout_ms=timeout_ms, cross=cross)
+        solve.solve_one(ob, timeout_ms=2000, use_cvc5=False, cross=False)
         rec = obligation_record(ob)
         if ob.verdict == "refuted":
-            confirm_refutation(prop, target, fv.sha, ob, rec, repo)
+            confirm_refutation(prop, target, fv.sha, ob, rec, repo, fv)
             if rec.get("via") == "finite-instantiation" and not rec.get("confirmed"):
-                # candidate model did not replay: it proves nothing; go on with the complete query
-                cand = rec
-                ob.verdict, ob.model, ob.via = None, None, None
-                solve.solve_one(ob, timeout_ms=timeout_ms, cross=False, finite=False)
-                rec = obligation_record(ob)
-                rec["discarded_candidate"] = {"inputs": cand.get("inputs"), "replay": cand.get("replay_result")}
-                if ob.verdict == "refuted":
-                    confirm_refutation(prop, target, fv.sha, ob, rec, repo)
-        recs.append(rec)
-    return recs
+                rec["discarded_candidate"] = {"inputs": rec.get("inputs"), "replay": rec.get("replay_result")}
+                hard.append(ob)
+        elif ob.verdict == "unknown":
+            hard.append(ob)
+        recs[ob.name] = rec
+    for ob in hard:
+        left = budget_s - (time.time() - t_start)
+        cand = recs[ob.name].get("discarded_candidate")
+        if left <= 1:
+            rec = recs[ob.name]
+            rec["verdict"] = "unknown"
+            rec["detail"] = (rec.get("detail") or "") + " per-function solver budget exhausted"
+            continue
+        ob.verdict, ob.model, ob.via = None, None, None
+        solve.solve_one(ob, timeout_ms=int(min(timeout_ms, left * 1000 / 3 + 1000)), cross=False, finite=False, skip_short=True)
+        rec = obligation_record(ob)
+        if cand:
+            rec["discarded_candidate"] = cand
+        if ob.verdict == "refuted":
+            confirm_refutation(prop, target, fv.sha, ob, rec, repo, fv)
+        recs[ob.name] = rec
+    if cross:
+        for ob in obs:
+            if recs[ob.name]["verdict"] in ("discharged", "refuted") and "cvc5" not in (recs[ob.name].get("solver") or ""):
+                r = solve.cross_check(ob, timeout_ms)
+                if r:
+                    recs[ob.name]["verdict"] = "solver-disagreement"
+                    recs[ob.name]["detail"] = r
+    return [recs[ob.name] for ob in obs]
 
 
 def verify_worker(job):
@@ -155,6 +189,8 @@ def verify_worker(job):
                 fb["obligations"] = solve_all(prop, target, fv2, obs2, repo, tier, timeout_ms, False)
             except EngineError as e:
                 fb["undecided"] = "%s: %s" % (type(e).__name__, e)
+            except Exception as e:  # noqa  (solver resource errors in the stand-in are not verdicts)
+                fb["undecided"] = "%s: %s" % (type(e).__name__, str(e)[:200])
             out["fallback"] = fb
         if canary and not out["undecided"]:
             # vacuity canary: `ensures False` must be refuted on at least one path
